@@ -76,7 +76,9 @@ impl FunctionMarkupPass {
         let inst = With::new(JumpLinkType::Jal, info.clone());
         let rd = With::new(Register::X0, info.clone());
         let name = With::new(LabelString::new("__return__"), info.clone());
-        let new_node = ParserNode::new_jump_link(inst, rd, name, exit.node().token().clone());
+        // The jump stands where the return stood (not at the exit it leads to)
+        let new_node =
+            ParserNode::new_jump_link(inst, rd, name, found_ret.node().token().clone());
         #[allow(unused_must_use)]
         found_ret.set_node(new_node);
     }
